@@ -223,6 +223,28 @@ def run(ctx):
     impl = ctx.harness_sharded(xlines)
     model = ctx.driver_sharded(xlines, "model")
     ctx.compare("tx-argument", xlines, impl, model, None, nontrivial=lambda c, i: i.startswith("OK"))
+    # tap parses --tx, fills in a witness and serialises it again: every other field comes back as given (version, sequences, outputs, lock time)
+    from . import c06
+    tapbin = os.path.join(ctx.bin, "tap")
+    done_nonzero = 0
+    for rep in range(40):
+        key = c06.rand_key(rnd); scripts = c06.rand_scripts(rnd, 2)
+        c = c06.Case(key, scripts, (rep % 2, []), "bcrt", rep % 3, seed=rnd.randrange(1 << 30))
+        pl = c06.python_line(key, scripts, None)
+        m = re.match(r"key=([0-9a-f]{64}) ", pl or "")
+        if not m: continue
+        txs = c06.funding_txs(c.seed, bytes.fromhex(m.group(1)), c.vout, c.extra)
+        if txs[1][3] == 0 and done_nonzero < 4 and rep < 36: continue      # want lock times other than 0
+        c06.exec_case(tapbin, c, bytes.fromhex(m.group(1)))
+        t_out = (c.side or {}).get("tx")
+        ctx.count("tap-reserialise", 1)
+        strip = lambda t: (t[0], [(bytes(i[0]), i[1], bytes(i[2]), i[3]) for i in t[1]], [(o[0], bytes(o[1])) for o in t[2]], t[3])
+        if not t_out or strip(t_out) != strip(txs[1]):
+            ctx.violation(c.line, {"stream": "tap-reserialise", "impl": c.impl, "given": repr(strip(txs[1]))[:400], "printed": repr(strip(t_out))[:400] if t_out else None,
+                                   "why": "the transaction tap prints differs from the one it was given in more than the witness"})
+        ctx.nontrivial.add("tapser:%d:%d" % (txs[1][3], txs[1][0]))
+        if txs[1][3] != 0: done_nonzero += 1
+        if done_nonzero >= 4 and rep >= 8: break
 
 
 def replay(ctx, case):
